@@ -156,13 +156,16 @@ public:
     {
         _capacity = size;
       byte* newBuffer = (byte*)new char[size + 1];
-      Memory::copy(newBuffer, bufferStart, bufferEnd - bufferStart);
+      usize oldSize = bufferEnd - bufferStart;
+      Memory::copy(newBuffer, bufferStart, oldSize < size ? oldSize : size);
       delete[] (char*)buffer;
       bufferStart = buffer = newBuffer;
       bufferEnd = newBuffer + size;
       *bufferEnd = 0;
     }
-    else if(buffer)
+    else if(!buffer)
+      bufferEnd = bufferStart;
+    else
     {
       if(bufferStart + size <= buffer + _capacity)
       {
